@@ -301,6 +301,17 @@ func (rd *refDriver) exercise(o reflect.Value) {
 			}
 		}
 	}
+	// A derived CONTAINER (the result of Select, Map, Intersection, Union,
+	// Difference: same type as the receiver, another object) belongs to the
+	// caller, who goes on using it like any other container - with arguments,
+	// mutators included. (Nodes and entries are parts of the receiver and are
+	// only read.)
+	if rd.d != nil && o.Type() == reflect.TypeOf(rd.d.Raw) && o.Pointer() != reflect.ValueOf(rd.d.Raw).Pointer() && rd.depth < 2 {
+		for k := 0; k < 4 && o.NumMethod() > 0; k++ {
+			rd.callMethod(obj, o, rd.c.R.Intn(o.NumMethod()))
+		}
+		rd.c.Count("obs:derived-container-used-with-arguments", 1)
+	}
 	// exported fields holding further gods objects (B-tree node entries)
 	e := o.Elem()
 	if e.Kind() == reflect.Struct {
